@@ -20,6 +20,10 @@ CHECKS = {
          "17 statement kinds (every node constructor, label, directives, malformed statements, statements that draw a specific diagnostic) x 4 positions x 5 indentations x 3 trailing texts x 3 line companies x 3 line endings x {base, included file} = 18360 layouts: every token of the real lexer, every node range, every parse error and every diagnostic of the full pipeline must have (line, column) equal to the harness locator's values for its raw offsets, lie inside the file on one line, and designate exactly the token(s) the layout generator placed there (register operand, label, or mnemonic through last operand).",
          "Trusted: locator and the mini-scanner for the 17 statement texts. Zero-based line/column and inclusive end offsets (the convention of the repository's own JSON expectations). CLI rendering of the same positions is checked under C18.",
          "DESIGN.md 3 C09"),
+ "C10": ("exhaustive hash-order schedule exploration (deviation-bounded, stateless re-execution through the rva_verif choice points) x all file-UUID orders; fresh-seed replays and repeated real-binary runs as secondary net",
+         "20 order-stress programs built from the anchors (several undefined labels, equally near candidate operands, multi-label entries, 2-3 returns, entries with several predecessors, shared tails, 2-3 files with diagnostics in each) plus the program pool: every schedule of the controlled hash-order decisions within the deviation bound (whole tree when small) x every relative order of the file UUIDs must give the same sequence of (code, file, range, title, level, description, related information); no two items of a result are equal; RVParser::run gives the same items; each schedule is replayed twice on freshly parsed input (new random node UUIDs and hash seeds) and the rva binary's --json/--compact/pretty (+-all-files) output is byte-identical across the explored schedules, all file orders and 8/3 runs per mode with true random seeds.",
+         "Exhaustive only at the hooked iteration site (H2, DFS successor order) and over file-UUID orders; the sites made deterministic by the C10 fixes lost their choice points (H3-H5), so a regression there is caught only by the fresh-seed replays and random-seed runs (sampling, stated as such).",
+         "DESIGN.md 3 C10"),
  "C11": ("bounded-exhaustive enumeration of call-graph/label arrangements x hash-order schedules; function table compared with an oracle computed from the AST and from identity-reachability over the final edges",
          "main calling f1, f2 (f3 from unreachable code) followed by every sequence of length <= 4/6 over an 11-symbol alphabet (function labels, local label, instruction, ret, jumps/branches to local and function labels, nested call) plus fixed programs for utvec handler installation and multi-label entries, each under every schedule within the deviation bound: entry nodes = call targets, Function::nodes() = identity-reachable set, owner lists consistent, one exit which is a return, other returns merged into it, sharing reported exactly when it exists.",
          "Trusted: the AST-level notion of call target; reachability uses the implementation's edges (C03).",
